@@ -2,6 +2,7 @@ package main
 
 import (
 	"fmt"
+	"strings"
 	"time"
 )
 
@@ -71,6 +72,7 @@ func init() {
 		r.Rule = "explicit-state BFS over API histories; revocation is attempted on tokens in every liveness state (live, rotated, revoked, killed, expired) reached by the search; each transition is followed by introspection of every token and, where the statement says 'changes nothing', by equality of the complete store dump"
 		r.Assumptions = []string{"model: owner revocation of a live token kills it and the token issued alongside it; other tokens of the same grant are not pinned (adopted from introspection); foreign client => unauthorized_client and unchanged store; failed client authentication => unchanged store; already-invalid tokens => success and unchanged store"}
 		famSearch(r, specs)
+		overlapPart(r, []string{"refresh-vs-revoke", "refresh-vs-revoke-at"})
 	})
 	registerCheck("C09", "model_checking", 150*time.Second, 40*time.Minute, func(r *Run) {
 		depth := 4
@@ -111,6 +113,10 @@ func overlapPart(r *Run, kinds []string) {
 		r.Exhaustive = false
 	}
 	if r.Bounds != nil {
+		if len(kinds) > 0 && strings.HasPrefix(kinds[0], "refresh-vs-revoke") {
+			r.Bounds["overlapping_requests"] = "a refresh request validated before and completed after the owner's accepted revocation of the presented refresh token / of the access token issued alongside it, x {HMAC,JWT} x {plain,transactional store}"
+			return
+		}
 		r.Bounds["overlapping_requests"] = fmt.Sprintf("%v: 2..%d identical token requests on one credential, every interleaving of their NewAccessRequest / NewAccessResponse phases, x {HMAC,JWT} x {plain,transactional store}", kinds, maxN)
 	}
 }
